@@ -165,14 +165,28 @@ LayFns(fs, file, ln) ==
            r == LayFns(Tail(fs), file, ln + Len(h.lines))
        IN [lines |-> h.lines \o r.lines, ds |-> <<h.d>> \o r.ds]
 
-\* file: [name, uses, types, fns, main]
+\* file: [name, uses, types, fns, main] and optionally order: where the declarations stand relative to the statements
+\*   "decls-first" (default)  types, functions, statements
+\*   "fns-last"               types, statements, functions
+\*   "main-first"             statements, types, functions
+\* (declarations are visible in the whole file; the statements run in their textual order whatever lies between them)
 LayFile(f) ==
   LET h == IF "header" \in DOMAIN f THEN f.header ELSE <<>>        \* raw leading lines (comments), shift every later line
+      ord == IF "order" \in DOMAIN f THEN f.order ELSE "decls-first"
       u == h \o [i \in 1..Len(f.uses) |-> "use " \o f.uses[i]]
       t == [i \in 1..Len(f.types) |-> RType(f.types[i])]
-      fn == LayFns(f.fns, f.name, 1 + Len(u) + Len(t))
-      m == LaySS(f.main, 0, 1 + Len(u) + Len(t) + Len(fn.lines))
-  IN [lines |-> u \o t \o fn.lines \o m.lines, fns |-> fn.ds, main |-> m.ss]
+  IN CASE ord = "decls-first" ->
+            LET fn == LayFns(f.fns, f.name, 1 + Len(u) + Len(t))
+                m == LaySS(f.main, 0, 1 + Len(u) + Len(t) + Len(fn.lines))
+            IN [lines |-> u \o t \o fn.lines \o m.lines, fns |-> fn.ds, main |-> m.ss]
+       [] ord = "fns-last" ->
+            LET m == LaySS(f.main, 0, 1 + Len(u) + Len(t))
+                fn == LayFns(f.fns, f.name, 1 + Len(u) + Len(t) + Len(m.lines))
+            IN [lines |-> u \o t \o m.lines \o fn.lines, fns |-> fn.ds, main |-> m.ss]
+       [] ord = "main-first" ->
+            LET m == LaySS(f.main, 0, 1 + Len(u))
+                fn == LayFns(f.fns, f.name, 1 + Len(u) + Len(m.lines) + Len(t))
+            IN [lines |-> u \o m.lines \o t \o fn.lines, fns |-> fn.ds, main |-> m.ss]
 
 RECURSIVE ConcatAll(_)
 ConcatAll(ss) == IF ss = <<>> THEN <<>> ELSE ss[1] \o ConcatAll(Tail(ss))
